@@ -72,6 +72,52 @@ def build(pkg, race=False):
 
 FAIL_RE = re.compile(r"^\s*--- FAIL: (\S+)", re.M)
 
+FRAMEWORK_PREFIXES = ("github.com/henrylee2cn/erpc/v6", "github.com/henrylee2cn/goutil")
+UNSAFE_GLOBAL_SETTERS = ("SetLoggerLevel", "SetLoggerLevel2", "SetMessageSizeLimit", "SetDefaultProtoFunc",
+                         "SetServiceMethodMapper", "SetLoggerOutputter", "SetDefaultBodyCodec", "SetGopool")
+
+
+def _innermost(stack):
+    """first frame that is not Go runtime / sync machinery"""
+    for fn in stack:
+        if fn.startswith(("runtime.", "sync.", "sync/atomic.", "internal/", "reflect.", "testing.")):
+            continue
+        return fn
+    return stack[0] if stack else "?"
+
+
+def parse_race_logs(cwd):
+    """Parse GORACE log files into reports {a, b, framework, text}."""
+    reports = []
+    for fn in sorted(os.listdir(cwd)):
+        if not fn.startswith("race."):
+            continue
+        txt = open(os.path.join(cwd, fn), errors="replace").read()
+        for block in txt.split("=================="):
+            if "WARNING: DATA RACE" not in block:
+                continue
+            stacks, cur = [], None
+            for line in block.splitlines():
+                if re.match(r"^(Write|Read|Previous write|Previous read|Atomic|Previous atomic)", line.strip()) and " by " in line:
+                    cur = []
+                    stacks.append(cur)
+                    continue
+                if line.startswith("Goroutine ") or not line.strip():
+                    if line.startswith("Goroutine "):
+                        cur = None
+                    continue
+                if cur is not None and line.startswith("  ") and not line.startswith("      "):
+                    cur.append(line.strip().split("(")[0] if line.strip().endswith(")") and "(" in line and not line.strip().startswith("github") else re.sub(r"\(\)$", "", line.strip()))
+            tops = [_innermost(st) for st in stacks[:2]]
+            while len(tops) < 2:
+                tops.append("?")
+            fw = all(t.startswith(FRAMEWORK_PREFIXES) for t in tops)
+            harness_setter = any(t.split(".")[-1] in UNSAFE_GLOBAL_SETTERS for t in tops)
+            harness_frames = any(any(f.startswith("verifharness/") for f in st[:1]) for st in stacks[:2])
+            key = "C14:race:" + "|".join(sorted(re.sub(r"^github.com/henrylee2cn/", "", t) for t in tops))
+            reports.append({"key": key, "tops": tops, "framework": fw and not harness_setter and not harness_frames, "text": block.strip()[:6000]})
+    return reports
+
 
 def run_one(prop, tier, run, idx, shard, nshards, base_seed, scratch, replay=None):
     """Run one test-binary invocation; returns dict(result=ok|fail|infra, ...)."""
@@ -116,6 +162,13 @@ def run_one(prop, tier, run, idx, shard, nshards, base_seed, scratch, replay=Non
         f.write(out)
     res = {"rc": rc, "wall": wall, "cwd": cwd, "stats": stats, "journal": journal, "out": out, "seed": seed,
            "pkg": pkg, "run": run, "checks": per}
+    if run.get("race"):
+        res["race"] = parse_race_logs(cwd)
+        if rc != 0 and "race detected during execution of test" in out and "--- FAIL" in out:
+            # decide from the parsed reports, not from the exit code
+            only_race = not re.search(r"rapid\] (failed|panic)", out) and "panic:" not in out
+            if only_race:
+                rc = 0
     if rc == 0:
         res["result"] = "ok"
         return res
@@ -165,6 +218,14 @@ def collect_replay(prop, res):
     with open(dst + ".output.log", "w") as f:
         f.write(out[-200000:])
     return dst
+
+
+def load_known_keys():
+    try:
+        d = json.load(open(KNOWN))
+        return {e["key"] for e in d.get("entries", []) if e.get("kind") == "known"}
+    except (OSError, ValueError):
+        return set()
 
 
 def merge_stats(paths):
@@ -349,6 +410,45 @@ def main():
     recs = merge_stats([r["stats"] for r in results if "stats" in r])
     fails = [r for r in results if r["result"] == "fail"]
     infra = [r for r in results if r["result"] == "infra"]
+    # data-race reports (C14): a report counts when both accesses are in framework code
+    race_viol, race_known, race_infra = [], [], []
+    known_keys = load_known_keys()
+    for r in results:
+        for rep in r.get("race") or []:
+            if not rep["framework"]:
+                race_infra.append(rep)
+            elif rep["key"] in known_keys:
+                race_known.append(rep)
+            else:
+                race_viol.append((r, rep))
+    seen_keys = set()
+    for rep in race_known:
+        if rep["key"] not in seen_keys:
+            seen_keys.add(rep["key"])
+            log("KNOWN-FINDING: property=%s data race between %s and %s [%s]" % (prop, rep["tops"][0], rep["tops"][1], rep["key"]))
+    if race_viol:
+        os.makedirs(os.path.join(REPLAYS, prop), exist_ok=True)
+        recs = merge_stats([r["stats"] for r in results if "stats" in r])
+        write_evidence(prop, tier, base_seed, cfg["level"], recs, time.time() - t0, len(race_viol),
+                       {"race_reports": [x[1]["key"] for x in race_viol]})
+        done_keys = set()
+        for r, rep in race_viol:
+            if rep["key"] in done_keys:
+                continue
+            done_keys.add(rep["key"])
+            pth = os.path.join(REPLAYS, prop, "race__%s__%s.log" % (time.strftime("%Y%m%d-%H%M%S"), hashlib.sha1(rep["key"].encode()).hexdigest()[:8]))
+            with open(pth, "w") as f:
+                f.write(rep["key"] + "\n\n" + rep["text"] + "\n")
+            with open(pth + ".meta.json", "w") as f:
+                json.dump({"kind": "history-log", "pkg": r.get("pkg"), "seed": r.get("seed")}, f)
+            log("  data race: %s <-> %s" % (rep["tops"][0], rep["tops"][1]))
+            log("VIOLATION property=%s replay=%s" % (prop, pth))
+        return 1
+    if race_infra and not any(r["result"] == "fail" for r in results):
+        log("INCONCLUSIVE: %d race report(s) involve harness code or non-concurrency-safe global setters; first: %s" % (len(race_infra), race_infra[0]["tops"]))
+        recs = merge_stats([r["stats"] for r in results if "stats" in r])
+        write_evidence(prop, tier, base_seed, cfg["level"], recs, time.time() - t0, 0, {"inconclusive": "harness race"})
+        return 2
     known_lines = []
     for r in results:
         for line in (r.get("out") or "").splitlines():
